@@ -73,9 +73,7 @@ func ruleKeyStable(w *World, r *Report) {
 		if b, ok := constBool(mu.Value); ok && b {
 			// unconditional in the loop body: the update's block is the body entered on every element
 			hdr := nx.Block()
-			body := hdr.Succs[0]
-			everyElement := body == mu.Block() || !reachableAvoiding(body, hdr, func(b *ssa.BasicBlock) bool { return b == mu.Block() })
-			if edgeDominates(hdr, 0, mu.Block()) && everyElement {
+			if edgeDominates(hdr, 0, mu.Block()) && loopVisitsAll(hdr, mu.Block()) {
 				keySet = mm
 			}
 		}
